@@ -797,6 +797,7 @@ bool World::init()
   eff_domains = cfg->domains;
   eff_ndots   = cfg->ndots;
   if (cfg->sysconf_search) vfs()["/vfs/resolv.conf"] = resolv_text(cfg->domains, cfg->ndots);
+  else if (!cfg->sys_resolv.empty()) vfs()["/vfs/resolv.conf"] = cfg->sys_resolv;
   if (!cfg->hosts.empty()) vfs()["/vfs/hosts"] = cfg->hosts;
   if (!cfg->hostaliases.empty()) {
     vfs()["/vfs/hostaliases"] = cfg->hostaliases;
